@@ -16,6 +16,7 @@ pub const ALPHA_TEXT: usize = 4;
 pub const ALPHA_UTF8: usize = 5;
 pub const ALPHA_FULL: usize = 6;
 pub const ALPHA_HIGHCASE: usize = 7;
+pub const ALPHA_LETTERMIX: usize = 8;
 
 pub fn alphabet(idx: usize) -> Vec<u8> {
     match idx {
@@ -31,6 +32,9 @@ pub fn alphabet(idx: usize) -> Vec<u8> {
         // UTF-8 pieces: e-acute, euro sign, emoji and their fragments
         5 => vec![0xc3, 0xa9, 0xe2, 0x82, 0xac, 0xf0, 0x9f, 0x98, 0x80, b'a', b'b', 0xf4, 0x8f, 0xbf, 0xc2, 0xdf, 0xe0, 0xa0, 0xef, 0x90, 0x7f],
         6 => (0..=255u8).collect(),
+        // few letters in both cases with very different frequency ranks plus
+        // one rare non-letter: rare bytes become letters
+        8 => b"eEtTxX#e".to_vec(),
         // letters and bytes >= 0x80 whose low bits look like letters
         _ => vec![b'a', b'A', b'c', b'C', 0xc1, 0xe1, 0xc3, 0xe3, 0x41 | 0x80, b'z', b'Z', 0x5b, 0x7b],
     }
@@ -391,13 +395,35 @@ pub fn realize_patterns(list: &PatList, alpha: &[u8]) -> Vec<Vec<u8>> {
                 .map(|(r, pre, suf, first)| {
                     // distinct-ish first bytes so that the start-byte
                     // prefilter is unavailable
+                    // filler bytes are common letters; now and then one of the
+                    // rare bytes themselves, in either case, so that a rare
+                    // byte also occurs at other offsets of other patterns
+                    let filler = |x: u8| -> u8 {
+                        if x % 13 == 0 {
+                            let b = rares[(x as usize / 13) % rares.len()];
+                            if x % 2 == 0 {
+                                flip_case(b)
+                            } else {
+                                b
+                            }
+                        } else {
+                            pick(COMMON, x)
+                        }
+                    };
                     let mut p = Vec::new();
                     if !pre.is_empty() {
                         p.push(pick(b"etaoinsrhldcum", *first));
-                        p.extend(pre[1..].iter().map(|&x| pick(COMMON, x)));
+                        p.extend(pre[1..].iter().map(|&x| filler(x)));
                     }
-                    p.push(rares[(*r as usize * rares.len()) >> 8]);
-                    p.extend(suf.iter().map(|&x| pick(COMMON, x)));
+                    let ri = (*r as usize * rares.len()) >> 8;
+                    // every third pattern: one byte in front of its rare byte
+                    // is ANOTHER pattern's rare byte in the opposite case
+                    if *first % 3 == 0 && p.len() >= 2 && rares.len() >= 2 {
+                        let pos = 1 + (*first as usize / 3) % (p.len() - 1);
+                        p[pos] = flip_case(rares[(ri + 1) % rares.len()]);
+                    }
+                    p.push(rares[ri]);
+                    p.extend(suf.iter().map(|&x| filler(x)));
                     p
                 })
                 .collect()
@@ -499,7 +525,7 @@ pub fn hay_recipe(o: HayOpts) -> BoxedStrategy<Vec<Piece>> {
         22 => Just(2u8),  // whole pattern
         12 => Just(4u8),  // proper prefix of a pattern
         8 => Just(5u8),   // pattern with one byte altered
-        4 => Just(6u8),   // pattern with case flipped
+        7 => Just(6u8),   // pattern with case flipped
         6 => Just(7u8),   // first byte of a pattern (prefilter candidate)
         5 => Just(8u8),   // interior byte of a pattern (rare byte candidate)
         6 => Just(9u8),   // proper suffix of a pattern
